@@ -281,6 +281,27 @@ def p_roundtrip(items):
     back2 = debcon.Debian822(io.StringIO(text))
     if back2.to_dict() != d.to_dict():
         return 'reading the rendering from a file object differs'
+    # load_control_file(path) is parse_control_fields of the paragraph in the file
+    import os
+    import tempfile
+    fd, path = tempfile.mkstemp(suffix='.control')
+    try:
+        with os.fdopen(fd, 'w', encoding='utf-8') as fh:
+            fh.write(text)
+
+        def quiet(f, *a):
+            try:
+                return _deps._quiet(f, *a)
+            except Exception as e:  # noqa
+                return Exn(type(e).__name__)
+        a = quiet(debcon.load_control_file, path)
+        b = quiet(debcon.parse_control_fields, debcon.Debian822(text))
+        if not isinstance(a, Exn) and not isinstance(b, Exn):
+            a, b = list(a.items()), list(b.items())
+        if a != b:
+            return 'load_control_file gives %r, parse_control_fields of the same paragraph %r' % (a, b)
+    finally:
+        os.unlink(path)
     return None
 
 
